@@ -344,6 +344,24 @@ theorem C10_latest_is_max (names : List Str) (hne : names ≠ []) (hconv : ∀ v
     refine ⟨cmpSort p.2 m.2, ?_, hmax p hp⟩
     simp [stdCompare, hlex p hp, hlex m hmem, cmpLexed]
 
+/-- The same through the stacks (`_findLatestProduct`): from stacks of conventional versions, not all
+empty, the version returned is declared in some stack and no declared version exceeds it. -/
+theorem C10_latest_across_is_max (stacks : List (List Str))
+    (hconv : ∀ st ∈ stacks, ∀ v ∈ st, convName v = true) (hne : stacks.flatten ≠ []) :
+    ∃ i v, latestAcross stacks = .ok (some (i, v)) ∧ v ∈ stacks.flatten ∧
+      ∀ w ∈ stacks.flatten, ∃ r, stdCompare false w v = .ok r ∧ r ≤ 0 := by
+  obtain ⟨out, hgo, hinv⟩ := latestAcrossGo_spec stacks 0 none [] hconv rfl
+  simp only [List.nil_append] at hinv
+  cases out with
+  | none => exact absurd hinv hne
+  | some o =>
+    obtain ⟨i, v, lv⟩ := o
+    obtain ⟨hv, _, hmem, hall⟩ := hinv
+    refine ⟨i, v, by simp only [latestAcross, hgo], hmem, ?_⟩
+    intro w hw
+    obtain ⟨lw, h1, _, h3⟩ := hall w hw
+    exact ⟨cmpSort lw lv, by simp [stdCompare, h1, hv, cmpLexed], h3⟩
+
 /-! non-vacuity: a chain, its rendering, the loop's answer; a list and its latest member -/
 example : render (opGe, n_1d2) [(opLt, n_1d10)] = [62, 61, 32, 49, 46, 50, 32, 124, 124, 32, 60, 32, 49, 46, 49, 48] := by decide
 #guard Str.toString (render (opGe, n_1d2) [(opLt, n_1d10)]) == ">= 1.2 || < 1.10"
@@ -351,6 +369,7 @@ example : versionMatch n_1d9 (render (opGe, n_1d10) [(opLt, n_1d2)]) = .ok false
 example : versionMatch n_1d9 (render (opGe, n_1d10) [(opLe, n_1d9)]) = .ok true := by decide
 example : versionMatch n_v1 (render (opGe, n_w1) []) = .ok false := by decide     -- unsortable: no match
 example : latest [n_1d9, n_1d10, n_1d2, n_1d10] = .ok (some 1) := by decide
+example : latestAcross [[n_1d9, n_1d2], [], [n_1d10, n_1d2d0]] = .ok (some (2, n_1d10)) := by decide
 
 /-! ## witnesses -/
 
